@@ -415,6 +415,7 @@ func replay(c *ev.Check) {
 	key, err := ev.LoadReplay(c.Replay, &raw)
 	if err != nil {
 		c.HarnessError("replay: %v", err)
+		runner.Cleanup()
 		c.Finish(1, 1, 1, "replay")
 		return
 	}
@@ -423,6 +424,7 @@ func replay(c *ev.Check) {
 		mode, _ := raw["mode"].(string)
 		o := runLoc(src, mode)
 		fmt.Printf("%s\n--- %s %s line %d hasFrom=%v %s\n", src, o.Kind, o.Class, o.Line, o.HasFrom, o.Msg)
+		runner.Cleanup()
 		c.Finish(1, 1, 1, "probe")
 		return
 	}
@@ -430,6 +432,7 @@ func replay(c *ev.Check) {
 		var lc locCase
 		ev.LoadReplay(c.Replay, &lc)
 		replayLoc(c, key, lc)
+		runner.Cleanup()
 		c.Finish(1, 1, 1, "replay")
 		return
 	}
@@ -450,5 +453,6 @@ func replay(c *ev.Check) {
 			c.Fail(k, "span-"+f.Clause, 0, sc, d)
 		}
 	}
+	runner.Cleanup()
 	c.Finish(1, 1, 1, "replay")
 }
